@@ -61,8 +61,11 @@ CHECKS.append(dict(property_id="C18", engine="LOG", technique="model-based prope
       level_claimed=dict(category="exploration", text="Three drivers compare every query (first/last index, term-at for all indexes, full and size-limited ranges, error codes, append-safety) after every mutation with an abstract log: L1 MemoryStorage through its public API (also every legal program of length <=4/5 over a small alphabet), L2 the combined stable+unstable view with stale/lost/reordered persistence acks filtered like raft.Step, L3 a real RawNode with AsyncStorageWrites whose storage threads lag arbitrarily while a scripted tree of leaders overwrites its tail (the ABA shape) - compared with a textbook reference follower.", design_ref="DESIGN.md 5/C18"),
       level_note="Trusted base: the abstract log / reference follower models in harness/logm, the script's leader-completeness rule, and the pass-through VerifLog hook."))
 
+CHECKS.append(dict(property_id="C19", engine="REPLAY", technique="differential property-based testing: every generated simulator case is re-executed from its recorded draw sequence (in-process, and in a child process for a sample) and the complete output traces are compared",
+      level_claimed=dict(category="exploration", text="Each generated cluster history (up to 10 nodes, so that sets larger than 7 are iterated) is run twice from one recorded sequence of draws, and every 8th case a third time in a child process; every Ready (field by field, emission order, deterministic marshalling), every Step error and a state summary after every call must be identical. A probabilistic detector of map-order / pointer-order / timing dependence.", design_ref="DESIGN.md 5/C19"),
+      level_note="Trusted base: the simulator is itself deterministic given its draws; election timeouts are harness inputs written through the build-tagged setter before every Tick."))
+
 NOT_YET = {
- "C19": "check under construction in this session (REPLAY engine); will be claimed when committed",
 }
 
 def main():
@@ -87,6 +90,8 @@ def main():
         engines=[
             dict(name="SIM", path="harness/sim", serves_properties=sorted(p for p in claimed if p not in ("C12","C13","C18","C19")),
                  kind_free_text="deterministic cluster simulator over RawNode; every choice is a rapid draw; monitors are invariants over the history"),
+            dict(name="REPLAY", path="harness/replay", serves_properties=["C19"],
+                 kind_free_text="determinism differ: the whole simulation is re-run from recorded draws in-process and in a child process"),
             dict(name="LOG", path="harness/logm", serves_properties=["C18"],
                  kind_free_text="model-based tests of MemoryStorage, raftLog (VerifLog hook) and a single async RawNode against an abstract log / reference follower"),
             dict(name="PURE", path="harness/pure", serves_properties=["C12", "C13"],
